@@ -569,9 +569,13 @@ package mapping
 // it is only when it is assignable, and otherwise converted to the key type (same kind) - never stored unchecked
 //@   loop 1 iteration-ensures [entry-key-fits-the-key-type] calls(AssignableTo) == 1 && arg(AssignableTo, 0) == keyType && (ret(AssignableTo) ==> arg(SetMapIndex, 1) == arg(MapIndex, 1) && calls(Convert) == 0) && (!ret(AssignableTo) ==> calls(Convert) == 1 && arg(Convert, 0) == arg(MapIndex, 1) && arg(Convert, 1) == keyType && arg(SetMapIndex, 1) == ret(Convert))
 //@   replay mapping_mapkeys
-//@   loop 1 iteration-ensures [list-entry-through-the-slice-filler] dereffedElemKind == 23 ==> calls(u.fillSlice) == 1 && ret(fillSlice) == nil && arg(fillSlice, 1) == elemType && arg(fillSlice, 3) == data
+// a list entry is filled as a value of the LIST type (the element type with its pointer taken off) and stored as the
+// element type wants it: the list itself, or the pointer to it for a map of pointers
+//@   replay-for list-entry-through-the-slice-filler mapping_map_ptr_elems
+//@   replay-for map-entry-recursively mapping_map_ptr_elems
+//@   loop 1 iteration-ensures [list-entry-through-the-slice-filler] dereffedElemKind == 23 ==> calls(u.fillSlice) == 1 && ret(fillSlice) == nil && arg(fillSlice, 1) == dereffedElemType && arg(fillSlice, 3) == data && (fieldElemKind == 22 ==> arg(SetMapIndex, 2) == ret(reflect.New)) && (fieldElemKind != 22 ==> arg(SetMapIndex, 2) == ret(Elem, 0, last))
 //@   loop 1 iteration-ensures [object-entry-through-unmarshal] dereffedElemKind == 25 ==> typeis(data, map[string]any) && calls(u.Unmarshal) == 1 && ret(Unmarshal) == nil && arg(Unmarshal, 1) == unbox(data, map[string]any) && arg(Unmarshal, 2) == ret(Interface, 0, 2)
-//@   loop 1 iteration-ensures [map-entry-recursively] dereffedElemKind == 21 ==> typeis(data, map[string]any) && calls(u.generateMap) == 1 && ret(generateMap, 1) == nil && arg(SetMapIndex, 2) == ret(generateMap, 0)
+//@   loop 1 iteration-ensures [map-entry-recursively] dereffedElemKind == 21 ==> typeis(data, map[string]any) && calls(u.generateMap) == 1 && ret(generateMap, 1) == nil && arg(generateMap, 1) == ret(dereffedElemType.Key) && arg(generateMap, 2) == ret(dereffedElemType.Elem) && (fieldElemKind != 22 ==> arg(SetMapIndex, 2) == ret(generateMap, 0)) && (fieldElemKind == 22 ==> arg(SetMapIndex, 2) == ret(reflect.New) && calls(Set) == 1 && arg(Set, 1) == ret(generateMap, 0))
 //@   loop 1 iteration-ensures [number-through-the-checked-store] dereffedElemKind != 23 && dereffedElemKind != 25 && dereffedElemKind != 21 && typeis(data, json.Number) ==> calls(setValue) == 1 && ret(setValue) == nil && arg(setValue, 0) == dereffedElemKind && arg(setValue, 2) == ret(String) && calls(elemValueOf) == 0 && (fieldElemKind == 22 ==> arg(SetMapIndex, 2) == ret(reflect.New)) && (fieldElemKind != 22 ==> arg(SetMapIndex, 2) == ret(Elem, 0, last))
 // every other entry (bool, string, anything of the element's kind) is stored only as what elemValueOf made of it for the
 // element type - assignable as it is, a named type converted, a pointer element allocated - and is a mismatch otherwise
